@@ -314,7 +314,18 @@ func nontrivial(s string) bool {
 	return false
 }
 
-func stringsBody(maxLen int, deep bool) nd.Body {
+// wideAlphabet adds to the core alphabet: multi-byte characters whose bytes
+// equal an escapable ASCII character modulo 128 (NBSP: 0xA0 ~ space, u-umlaut:
+// 0xBC ~ '<', section sign: 0xA7 ~ apostrophe), a raw byte that is not valid
+// UTF-8, control bytes that differ from hex digits only in bit 5, and more hex
+// digits in both cases.
+var wideAlphabet = append(append([]string{}, alphabet...), "\u00a0", "\u00fc", "\u00a7", "\xa0", "\x10", "\x16", "e", "E", "7")
+
+func stringsBody(maxLen int, deep bool, alpha ...string) nd.Body {
+	alphabet := alphabet
+	if len(alpha) > 0 {
+		alphabet = alpha
+	}
 	return func(c *nd.Ctx) nd.Result {
 		n := c.Choose(maxLen+1, "len")
 		var b strings.Builder
@@ -440,10 +451,10 @@ func init() {
 	drv.Register(&drv.Prop{
 		ID:    "C16",
 		Level: "exploration",
-		Rule: "every string over the alphabet {a,space,\\,2,0,5,c,C,@,x} up to the tier's length (all of them, no sampling), each checked through String, Bytes, Span, " +
+		Rule: "every string over the alphabet {a,space,\\,2,0,5,c,C,@,x} up to the tier's length, and every string one symbol shorter over that alphabet widened by NBSP, u-umlaut, section sign, a raw 0xA0 byte, control bytes 0x10 and 0x16 and e/E/7 (all of them, no sampling), each checked through String, Bytes, Span, " +
 			"single-call Transform for every prefix x destination capacity, streaming with every 2/3-way split, transform.Reader/Writer, against a 15-line reference; " +
 			"plus escapes/escapables planted at offsets around 0..6, 128, 256, 4096. Non-trivial = distinct input containing an escapable character or backslash.",
-		Assumptions: []string{"golang.org/x/text/transform helpers (String, Bytes, Reader, Writer) follow their documented contract", "inputs outside the 10-symbol alphabet and beyond the stated lengths/offsets are not covered"},
+		Assumptions: []string{"golang.org/x/text/transform helpers (String, Bytes, Reader, Writer) follow their documented contract", "inputs outside the two alphabets and beyond the stated lengths/offsets are not covered"},
 		Parts: func(tier string) []drv.Part {
 			l, deep, budget := 5, false, 90*time.Second
 			if tier == "thorough" {
@@ -451,6 +462,7 @@ func init() {
 			}
 			return []drv.Part{
 				{Name: "strings", Desc: fmt.Sprintf("all strings of length <= %d over a 10-symbol alphabet", l), Body: stringsBody(l, deep), CutDepth: 3, Budget: budget},
+				{Name: "strings-wide", Desc: fmt.Sprintf("all strings of length <= %d over a 19-symbol alphabet with non-ASCII, invalid and control bytes", l-1), Body: stringsBody(l-1, deep, wideAlphabet...), CutDepth: 3, Budget: budget},
 				{Name: "planted", Desc: "escapable characters and escape sequences planted around buffer boundaries", Body: plantedBody, CutDepth: 2, Budget: budget},
 			}
 		},
